@@ -397,7 +397,51 @@ func (sc *scenario) durableBest(s *kv) *sblock {
 	return sc.byHash[string(h)]
 }
 
+// view is the part of the dump that the node's queries about the main chain can observe: everything but
+// receipts records of blocks that are not on the main chain and state markers of roots other than the best
+// block's (leftovers of executions that were abandoned; a crash-free run may or may not have produced or
+// deleted them).
+func (sc *scenario) view(s *kv) string {
+	t := s.clone()
+	main := map[int]bool{}
+	var best *sblock
+	if v, ok := s.C[string(dbkey.LatestBlock())]; ok {
+		n := types.BlockNoFromBytes(v)
+		for h := uint64(0); h <= n; h++ {
+			if hv, ok := s.C[string(types.BlockNoToBytes(h))]; ok {
+				if b, ok := sc.byHash[string(hv)]; ok {
+					main[b.id] = true
+					best = b
+				}
+			}
+		}
+	}
+	for id := 1; id < len(sc.blocks); id++ {
+		if !main[id] {
+			delete(t.C, string(dbkey.Receipts(sc.blocks[id].blk.BlockHash(), sc.blocks[id].no)))
+		}
+	}
+	for id := 1; id < len(sc.rootB); id++ {
+		if best == nil || best.root != id {
+			delete(t.S, string(common.Hasher(sc.rootB[id])))
+		}
+	}
+	return sc.dump(t)
+}
+
 // ---------------------------------------------------------------- session
+
+// Finding classes (see notes/C06.md). A failure is tagged with a class only when it has exactly the
+// shape of that class; anything else is reported as a plain violation.
+const (
+	// crash after the block that triggers a reorganisation was stored and before the reorganisation
+	// marker was written: the restart is coherent at the old tip, but the stored block is "already
+	// connected" when it is fed again, so the reorganisation is not resumed until another block arrives
+	classNotResumed = "C06-reorg-not-resumed-before-marker"
+	// a partially flushed bulk of ReorgMarker.RecoverChainMapping (height deletions first, latest last):
+	// the latest key names a height whose index entry is gone, ChainDB.Init fails (ErrorLoadBestBlock)
+	classTornRecoverMapping = "C06-torn-recover-mapping-unbootable"
+)
 
 type session struct {
 	run  *vh.Run
@@ -405,16 +449,20 @@ type session struct {
 	sc   *scenario
 	dir  string
 	ops  []string
-	n    *node
 	base *kv    // both stores when the recording starts
 	J    []unit // recorded journal (canonical entry order)
 	// crash-free run
-	feedEnd   []int    // feedEnd[i] = number of units after the i-th feed
 	finalDump string
+	finalView string
+	extView   string
 	finalAcct string
 	finalBest int
-	allowedA  []int // per prefix k: tip durably reached at or before k
-	allowedB  []int // per prefix k: next tip
+	ext       *sblock // one more block on the crash-free tip
+	extDump   string
+	extAcct   string
+	allowedA  []int  // per prefix k: tip durably reached at or before k
+	allowedB  []int  // per prefix k: next tip
+	window    []bool // per prefix k: the triggering block of a reorganisation is stored, its marker is not yet
 	crashes   int
 }
 
@@ -424,11 +472,27 @@ func (s *session) op(line, out string, nontrivial bool) {
 }
 
 func (s *session) replayObj(extra string) map[string]interface{} {
-	ops := s.ops
-	if len(ops) > 200 {
-		ops = append(append([]string{}, ops[:60]...), ops[len(ops)-120:]...)
+	// the recording part of the session and the tail that failed
+	var rec, tail []string
+	for i, l := range s.ops {
+		if strings.HasPrefix(l, "crash ") {
+			rec = s.ops[:i]
+			break
+		}
 	}
-	return map[string]interface{}{"scenario": s.sc.name, "at": extra, "session": append([]string{}, ops...)}
+	if rec == nil {
+		rec = s.ops
+	}
+	last := -1
+	for i, l := range s.ops {
+		if strings.HasPrefix(l, "crash ") {
+			last = i
+		}
+	}
+	if last >= 0 {
+		tail = s.ops[last:]
+	}
+	return map[string]interface{}{"scenario": s.sc.name, "at": extra, "recording": append([]string{}, rec...), "failing": append([]string{}, tail...)}
 }
 
 func (s *session) fail(what, at string) {
@@ -464,7 +528,7 @@ func errClass(err error) string {
 	return "err"
 }
 
-// feed submits block id through the real addBlock; returns the canonical answer and the units written.
+// feed submits a block through the real addBlock; returns the canonical answer and the units written.
 func (s *session) feed(n *node, b *sblock) (string, []unit) {
 	before := len(n.rec.units)
 	res, _ := vh.Guard(func() string {
@@ -509,26 +573,58 @@ func (s *session) acct(n *node, root []byte) string {
 	return out
 }
 
-// record runs the scenario once without a crash.
+// prepare runs the scenario once on a scratch node (nothing recorded): the scenario is kept only if the
+// crash-free run stores every block it is fed (an arrival order in which the one-slot-per-parent orphan
+// pool drops a block makes "feeding the same blocks again" a different experiment; that is C05's ground).
+// It also builds the extension block on the crash-free tip.
+func (s *session) prepare(rng *vh.Rng) bool {
+	sc := s.sc
+	d := s.dir + ".dry"
+	s.w.initDir(d)
+	n := s.w.boot(d)
+	for _, id := range sc.order {
+		vh.Guard(func() string { chain.VerifC06AddBlock(n.cs, sc.blocks[id].blk, "peer"); return "" })
+	}
+	ok := true
+	for _, id := range sc.order {
+		if _, err := n.cs.GetBlock(sc.blocks[id].blk.BlockHash()); err != nil {
+			ok = false
+		}
+	}
+	best, _ := n.cs.GetBestBlock()
+	n.close()
+	os.RemoveAll(d)
+	if !ok {
+		return false
+	}
+	tip := sc.byHash[string(best.BlockHash())]
+	s.ext = sc.child(tip, sc.freshSpecs(tip, rng, 1, 7))
+	return true
+}
+
+// record runs the scenario once without a crash, on journaling stores.
 func (s *session) record() {
 	sc := s.sc
 	s.w.initDir(s.dir)
 	n := s.w.boot(s.dir)
 	s.base = n.stores()
 	g := sc.blocks[1]
-	s.op(fmt.Sprintf("new %d %d", g.id, g.root), sc.dump(s.base), true)
+	s.op(fmt.Sprintf("new %d %d %d", g.id, g.root, sc.maxNo), sc.dump(s.base), true)
+	type span struct{ from, to int }
+	var spans []span
 	for _, id := range sc.order {
 		b := sc.blocks[id]
 		line := sc.feedLine(b)
 		s.run.Pending(line)
 		ans, us := s.feed(n, b)
+		spans = append(spans, span{len(s.J), len(s.J) + len(us)})
 		s.J = append(s.J, us...)
-		s.feedEnd = append(s.feedEnd, len(s.J))
 		s.op(line, ans, len(us) > 0)
 		s.run.Count(fmt.Sprintf("feed-units-%d", min(len(us), 9)))
 	}
 	fin := n.stores()
 	s.finalDump = sc.dump(fin)
+	s.finalView = sc.view(fin)
 	s.op("dump", s.finalDump, true)
 	best, _ := n.cs.GetBestBlock()
 	s.finalBest = sc.byHash[string(best.BlockHash())].id
@@ -545,7 +641,17 @@ func (s *session) record() {
 	if !sameMap(chk.C, fin.C) || !sameMap(chk.S, fin.S) {
 		s.fail("harness: journal replay differs from the final stores", "final")
 	}
+	// one more block on the tip (not part of the journal that is crashed)
+	line := sc.feedLine(s.ext)
+	ans, us := s.feed(n, s.ext)
+	s.op(line, ans, len(us) > 0)
+	s.extDump = sc.dump(n.stores())
+	s.extView = sc.view(n.stores())
+	s.op("dump", s.extDump, true)
+	best, _ = n.cs.GetBestBlock()
+	s.extAcct = s.acct(n, best.GetHeader().GetBlocksRootHash())
 	n.close()
+
 	// allowed tips per prefix: A = tip at the last stable point (no marker) at or before k, B = next tip
 	cur := s.base.clone()
 	type pt struct {
@@ -583,6 +689,36 @@ func (s *session) record() {
 			}
 		}
 		s.allowedB[k] = b
+	}
+	// the window of the not-resumed class: inside a feed that writes a marker, after its last side-block record
+	// (the unit [+blk] just before the roll-forward) and up to (not including) the marker unit
+	s.window = make([]bool, len(pts))
+	for _, sp := range spans {
+		m0 := -1
+		for i := sp.from; i < sp.to; i++ {
+			_, t := sc.canon(s.J[i])
+			if strings.HasPrefix(t, "C.tx[+marker:") {
+				m0 = i
+				break
+			}
+		}
+		if m0 < 0 {
+			continue
+		}
+		s0 := -1
+		for i := sp.from; i < m0; i++ {
+			_, t := sc.canon(s.J[i])
+			if strings.HasPrefix(t, "C.tx[+blk:") && !strings.Contains(t, ",") {
+				s0 = i
+			}
+		}
+		if s0 < 0 {
+			continue
+		}
+		for k := s0 + 1; k <= m0; k++ {
+			s.window[k] = true
+		}
+		s.run.Count("reorganising-feeds")
 	}
 }
 
@@ -622,13 +758,11 @@ func (s *session) invariant(n *node, st *kv) string {
 		return "(1) cached latest number is not the best block's number"
 	}
 	// (2) the height index maps each height of the path to exactly that block, nothing above
-	onMain := map[string]*types.Block{}
 	for _, b := range path {
 		got, err := chain.VerifC06GetBlockByNo(cs, b.BlockNo())
 		if err != nil || !bytes.Equal(got.BlockHash(), b.BlockHash()) {
 			return fmt.Sprintf("(2) height %d does not map to the block on the best path", b.BlockNo())
 		}
-		onMain[string(b.BlockHash())] = b
 	}
 	for h := best.BlockNo() + 1; h <= sc.maxNo+2; h++ {
 		if _, ok := st.C[string(types.BlockNoToBytes(h))]; ok {
@@ -687,12 +821,12 @@ func (s *session) invariant(n *node, st *kv) string {
 }
 
 type restartResult struct {
-	n      *node
-	ans    string
-	ok     bool
-	start  *kv
-	units  []unit // init units ++ recover units
-	ninit  int
+	n     *node
+	ans   string
+	ok    bool
+	start *kv
+	units []unit // init units ++ recover units
+	ninit int
 }
 
 // restart materialises st in a fresh directory and runs the real restart path on it.
@@ -746,24 +880,53 @@ func (s *session) restart(st *kv) *restartResult {
 		rc = "panic"
 	}
 	r.ok = rerr == nil && !pan
+	if !r.ok {
+		r.ans = fmt.Sprintf("boot=ok init=%s rec=%s recunits=%s", sc.unitsText(initUnits), rc, sc.unitsText(recUnits))
+		return r
+	}
 	r.ans = fmt.Sprintf("boot=ok init=%s rec=%s recunits=%s best=%s root=%d", sc.unitsText(initUnits), rc, sc.unitsText(recUnits),
 		sc.bid(best.BlockHash()), sc.rootOf(n))
 	return r
 }
 
-// after a restart: the property's predicate, then feed everything again and compare with the crash-free run.
-func (s *session) judge(r *restartResult, a, b int, at string, torn bool) {
+type crashCtx struct {
+	at       string
+	a, b     int  // allowed tips
+	torn     bool // a partially flushed bulk is involved
+	inWindow bool // the crash point lies in the not-resumed window
+	tornInit bool // the partially flushed bulk is the one ChainDB.Init wrote (RecoverChainMapping)
+}
+
+// judge: the property's predicate on the restarted node, then feed everything again and compare with the
+// crash-free run, then one more block.
+func (s *session) judge(r *restartResult, c crashCtx) {
 	sc := s.sc
-	fail := func(what string) {
-		if torn {
-			s.failKnown(what, "C06-torn-bulk", at)
-			s.run.Count("torn-violation")
-			return
+	count := func(what string) {
+		kind := what
+		if i := strings.IndexAny(kind, ":0123456789"); i > 0 {
+			kind = kind[:i]
 		}
-		s.fail(what, at)
+		t := ""
+		if c.torn {
+			t = "torn:"
+		}
+		s.run.Count("fail:" + t + strings.TrimSpace(kind))
+		if os.Getenv("C06_DEBUG") != "" {
+			fmt.Fprintf(os.Stderr, "FAIL %s [%s] %s :: %s\n", c.at, s.sc.name, what, r.ans)
+		}
+	}
+	fail := func(what string) {
+		count(what)
+		s.fail(what, c.at)
 	}
 	if r.n == nil || !r.ok {
-		fail("the node does not come up after the crash: " + r.ans)
+		what := "the node does not come up after the crash: " + r.ans
+		if c.tornInit && strings.HasPrefix(r.ans, "boot=err-load-best") {
+			count(what)
+			s.failKnown(what, classTornRecoverMapping, c.at)
+		} else {
+			fail(what)
+		}
 		if r.n != nil {
 			r.n.close()
 		}
@@ -772,18 +935,21 @@ func (s *session) judge(r *restartResult, a, b int, at string, torn bool) {
 	n := r.n
 	st := n.stores()
 	s.op("dump", sc.dump(st), true)
+	clean := true
 	if what := s.invariant(n, st); what != "" {
 		fail("after restart+recovery: " + what)
+		clean = false
 	}
 	best, _ := n.cs.GetBestBlock()
 	bid := 0
 	if sb, ok := sc.byHash[string(best.BlockHash())]; ok {
 		bid = sb.id
 	}
-	if bid != a && bid != b {
-		fail(fmt.Sprintf("after restart+recovery the best block is %d, neither the old tip %d nor the new tip %d", bid, a, b))
+	if bid != c.a && bid != c.b {
+		fail(fmt.Sprintf("after restart+recovery the best block is %d, neither the old tip %d nor the new tip %d", bid, c.a, c.b))
+		clean = false
 	}
-	if bid == a {
+	if bid == c.a {
 		s.run.Count("recovered-to-old-tip")
 	} else {
 		s.run.Count("recovered-to-new-tip")
@@ -800,28 +966,54 @@ func (s *session) judge(r *restartResult, a, b int, at string, torn bool) {
 	d := sc.dump(fin)
 	s.op("dump", d, true)
 	best, _ = n.cs.GetBestBlock()
-	conv := d == s.finalDump && s.acct(n, best.GetHeader().GetBlocksRootHash()) == s.finalAcct
+	refed := sc.bid(best.BlockHash())
+	conv := sc.view(fin) == s.finalView && s.acct(n, best.GetHeader().GetBlocksRootHash()) == s.finalAcct
+	if conv && d != s.finalDump {
+		s.run.Count("refeed-converged-with-leftover-records")
+	}
 	if what := s.invariant(n, fin); what != "" {
 		fail("after feeding the blocks again: " + what)
+		clean = false
 	}
-	if !conv {
-		// does one more block on the crash-free tip bring it there?
-		s.run.Count("refeed-not-converged")
-		fail(fmt.Sprintf("feeding the same blocks again ends at best %s, the crash-free run at %d: %s  vs  %s", sc.bid(best.BlockHash()), s.finalBest, d, s.finalDump))
-	} else {
+	// one more block on the crash-free tip
+	line := sc.feedLine(s.ext)
+	s.run.Pending(line)
+	ans, us := s.feed(n, s.ext)
+	s.op(line, ans, len(us) > 0)
+	fin2 := n.stores()
+	d2 := sc.dump(fin2)
+	s.op("dump", d2, true)
+	best, _ = n.cs.GetBestBlock()
+	convExt := sc.view(fin2) == s.extView && s.acct(n, best.GetHeader().GetBlocksRootHash()) == s.extAcct
+	if what := s.invariant(n, fin2); what != "" {
+		fail("after one more block: " + what)
+		clean = false
+	}
+	switch {
+	case conv && convExt:
 		s.run.Count("refeed-converged")
+	case !conv && convExt && clean && c.inWindow && bid == c.a:
+		s.run.Count("refeed-not-converged-until-next-block")
+		what := fmt.Sprintf("feeding the same blocks again ends at best %s, the crash-free run at %d (one more block on that tip brings both to the same state): %s  vs  %s", refed, s.finalBest, d, s.finalDump)
+		count(what)
+		s.failKnown(what, classNotResumed, c.at)
+	case !conv:
+		s.run.Count("refeed-not-converged")
+		fail(fmt.Sprintf("feeding the same blocks again ends at best %s, the crash-free run at %d: %s  vs  %s", refed, s.finalBest, d, s.finalDump))
+	default:
+		s.run.Count("refeed-converged-then-diverged")
+		fail(fmt.Sprintf("after feeding the same blocks again and one more block the stores differ from the crash-free run: %s  vs  %s", d2, s.extDump))
 	}
 	n.close()
 }
 
 func (s *session) crashAll(nested bool, torn bool) {
-	sc := s.sc
 	cur := s.base.clone()
 	for k := 0; k <= len(s.J); k++ {
 		if k > 0 {
 			cur.apply(s.J[k-1])
 		}
-		s.crashAt(cur.clone(), fmt.Sprintf("crash %d", k), s.allowedA[k], s.allowedB[k], nested, false)
+		s.crashAt(cur.clone(), fmt.Sprintf("crash %d", k), crashCtx{a: s.allowedA[k], b: s.allowedB[k], inWindow: s.window[k]}, nested)
 		if torn && k < len(s.J) && s.J[k].Kind == "bulk" && len(s.J[k].Ops) > 1 {
 			u := s.J[k]
 			for j := 1; j < len(u.Ops); j++ {
@@ -839,46 +1031,76 @@ func (s *session) crashAll(nested bool, torn bool) {
 				}
 				t := cur.clone()
 				t.applyTorn(u, j)
+				// the unit being flushed may be the one that moves the tip
 				bb := s.allowedB[k]
-				if k+1 < len(s.allowedB) && s.allowedA[k+1] != s.allowedA[k] {
+				if s.allowedA[k+1] != s.allowedA[k] {
 					bb = s.allowedA[k+1]
 				}
-				s.crashAt(t, fmt.Sprintf("crash %d %d", k, mj), s.allowedA[k], bb, false, true)
+				s.crashAt(t, fmt.Sprintf("crash %d %d", k, mj), crashCtx{a: s.allowedA[k], b: bb, torn: true, inWindow: s.window[k] && s.window[k+1]}, false)
 			}
 		}
 	}
-	_ = sc
 }
 
-func (s *session) crashAt(st *kv, line string, a, b int, nested bool, torn bool) {
+func (s *session) crashAt(st *kv, line string, c crashCtx, nested bool) {
 	s.crashes++
 	s.run.Pending(line)
 	r := s.restart(st)
 	s.op(line, r.ans, true)
-	s.run.Count("crash-points")
+	if c.torn {
+		s.run.Count("crash-points-torn")
+	} else {
+		s.run.Count("crash-points")
+	}
 	if len(r.units) > 0 {
 		s.run.Count("crash-points-with-recovery-writes")
 	}
-	units, start := r.units, r.start
-	s.judge(r, a, b, line, torn)
+	units, start, ninit := r.units, r.start, r.ninit
+	c.at = line
+	s.judge(r, c)
 	if !nested {
 		return
 	}
 	// crashes inside the recovery: every proper prefix of the restart's own units
-	for j := 0; j < len(units); j++ {
+	for j := 1; j < len(units); j++ {
 		t := start.clone()
 		for i := 0; i < j; i++ {
 			t.apply(units[i])
-		}
-		if j == 0 {
-			continue // same as the crash point itself
 		}
 		l2 := fmt.Sprintf("rcrash %d", j)
 		s.run.Pending(l2)
 		r2 := s.restart(t)
 		s.op(l2, r2.ans, true)
 		s.run.Count("crash-points-inside-recovery")
-		s.judge(r2, a, b, line+" / "+l2, torn)
+		c2 := c
+		c2.at = line + " / " + l2
+		s.judge(r2, c2)
+	}
+	if !s.run.Thorough() {
+		return
+	}
+	// partially flushed bulks of the recovery itself
+	for j := 0; j < len(units); j++ {
+		u := units[j]
+		if u.Kind != "bulk" || len(u.Ops) < 2 {
+			continue
+		}
+		t := start.clone()
+		for i := 0; i < j; i++ {
+			t.apply(units[i])
+		}
+		for e := 1; e < len(u.Ops); e++ {
+			t2 := t.clone()
+			t2.applyTorn(u, e)
+			l2 := fmt.Sprintf("rcrash %d %d", j, e)
+			s.run.Pending(l2)
+			r2 := s.restart(t2)
+			s.op(l2, r2.ans, true)
+			s.run.Count("crash-points-inside-recovery-torn")
+			c2 := c
+			c2.at, c2.torn, c2.tornInit = line+" / "+l2, true, j < ninit
+			s.judge(r2, c2)
+		}
 	}
 }
 
@@ -904,11 +1126,16 @@ func main() {
 	scs := scenarios(w, run)
 	for i, sc := range scs {
 		s := &session{run: run, w: w, sc: sc, dir: filepath.Join(w.root, fmt.Sprintf("s%d", i))}
+		fam := strings.SplitN(sc.name, "/", 2)[0]
+		if !s.prepare(run.Rng) {
+			run.Count("scenario-discarded(crash-free run drops a block):" + fam)
+			continue
+		}
 		s.record()
-		nested := run.Thorough() || i%3 == 0
+		nested := run.Thorough() || i%2 == 0
 		torn := run.Thorough()
 		s.crashAll(nested, torn)
-		run.Count("scenario:" + strings.SplitN(sc.name, "/", 2)[0])
+		run.Count("scenario:" + fam)
 		os.RemoveAll(s.dir)
 	}
 	os.RemoveAll(w.root)
